@@ -170,6 +170,30 @@ Example C19_environ_example :
 Proof. vm_compute. reflexivity. Qed.
 Print Assumptions C19_environ_example.
 
+(* absolute-form target  scheme://netloc/path?query  (any scheme of letters, digits, + - . starting
+   with a letter; any netloc of printable characters without / ? # [ ] %): PATH_INFO and
+   QUERY_STRING are those of the path part, however it is percent-encoded, and HTTP_HOST is the
+   netloc whatever Host header was sent (generated path_info_gen / host_override_gen) *)
+Theorem C19_environ_absolute : forall keep b q a sch hs,
+  forallb (fun c => c <? 256) b = true -> query_ok q = true -> netloc_ok a = true -> scheme_ok sch = true ->
+  exists e, make_environ (sch ++ COLON :: [SLASH; SLASH] ++ a ++ SLASH :: pct_enc keep b ++ qpart q) hs = Some e /\
+            en_path_info e = wsgi_encoding_dance (utf8_decode_replace (SLASH :: b)) /\
+            en_query_string e = qtext q /\
+            env_get HTTP_HOST (en_headers e) = Some a.
+Proof. exact environ_absolute. Qed.
+Print Assumptions C19_environ_absolute.
+
+(* the repair for a target that starts with two slashes (urlsplit takes the first segment for an
+   authority): the segment is put back in front of the path, the headers are untouched *)
+Theorem C19_environ_double_slash : forall keep b q a hs,
+  forallb (fun c => c <? 256) b = true -> query_ok q = true -> netloc_ok a = true ->
+  exists e, make_environ ([SLASH; SLASH] ++ a ++ SLASH :: pct_enc keep b ++ qpart q) hs = Some e /\
+            en_path_info e = wsgi_encoding_dance (utf8_decode_replace (SLASH :: a ++ SLASH :: b)) /\
+            en_query_string e = qtext q /\
+            en_headers e = env_headers hs [].
+Proof. exact environ_double_slash. Qed.
+Print Assumptions C19_environ_double_slash.
+
 (* absolute-form target http://h:80/a%20b?q : path and query split after the authority, Host taken
    from the target (generated path_info_gen / host_override_gen) *)
 Example C19_environ_absolute_example :
@@ -238,3 +262,45 @@ Example C19_limited_malformed_example :
      = ([[97; 98]; []], None).
 Proof. vm_compute. repeat split. Qed.
 Print Assumptions C19_limited_malformed_example.
+
+(* run_wsgi as a state machine (C19/App.v over the generated start_response / write / execute
+   decisions).  An application that calls start_response, possibly again with exc_info before
+   anything was sent, and then produces body pieces through write() and/or by iteration: what
+   reaches the socket is exactly the response (C19_response_framing, C19_response_headers) carrying
+   the status and headers of the LAST accepted start_response and the pieces in order; a status
+   outside <digits>[ <reason>] stops before anything is written *)
+From Wz Require Import C19.App C19.AppProofs.
+Theorem C19_app_response : forall proto method expect server date s0 h0 e0 more body,
+  forallb is_piece body = true ->
+  let sL := fst (last_sr s0 h0 more) in let hL := snd (last_sr s0 h0 more) in
+  let acts := ASR s0 h0 e0 :: map (fun sh => ASR (fst sh) (snd sh) true) more ++ body in
+  match respond proto method expect server date sL hL (map data_of body) with
+  | Some out => run_app proto method expect server date acts = (out, None)
+  | None => run_app proto method expect server date acts = (expect_prefix expect, Some EBadStatus)
+  end.
+Proof. exact app_normal. Qed.
+Print Assumptions C19_app_response.
+
+(* the assertion / exception cases are exactly the documented ones: a piece before any
+   start_response is AssertionError (write() before start_response) with nothing written;
+   start_response again without exc_info after a non-empty header list was set is AssertionError
+   (Headers already set); with exc_info after a non-empty header list was sent it re-raises the
+   application's exception; with exc_info before anything was sent it replaces status and headers *)
+Theorem C19_app_errors : forall proto method expect server date,
+  (forall a rest, is_piece a = true ->
+     run_app proto method expect server date (a :: rest) = (expect_prefix expect, Some EWriteBeforeStart)) /\
+  (forall st s h x hs, w_headers_set st = Some (x :: hs) ->
+     do_act proto method server date st (ASR s h false) = inr EHeadersAlreadySet) /\
+  (forall st s h x hs, w_headers_sent st = Some (x :: hs) ->
+     do_act proto method server date st (ASR s h true) = inr EReraised) /\
+  (forall st s h, w_headers_sent st = None ->
+     exists st', do_act proto method server date st (ASR s h true) = inl st' /\ w_status_set st' = Some s /\
+                 w_headers_set st' = Some h /\ w_out st' = w_out st).
+Proof. exact app_errors. Qed.
+Print Assumptions C19_app_errors.
+
+(* the generated decision of start_response, spelled out (an empty header list counts as not set / not sent) *)
+Theorem C19_start_response_cases : forall exc sent set_,
+  start_response_gen exc sent set_ = if exc then (if sent then SRReraise else SRAccept) else (if set_ then SRAssert else SRAccept).
+Proof. exact start_response_cases. Qed.
+Print Assumptions C19_start_response_cases.
